@@ -36,7 +36,10 @@ func events(r *mc.Run) {
 			r.Eval()
 			viol := func(what, msg string) { r.Violation("events/"+what, id, msg, nil) }
 			if pan || err != nil {
-				viol("fails", fmt.Sprintf("makeEvents failed: %v %v", err, val))
+				if pan {
+					viol("panic", fmt.Sprintf("makeEvents panicked: %v", val))
+				}
+				r.Outcome("events:not-emitted") // a refusal emits nothing; counted only
 				return "err"
 			}
 			r.Validated()
